@@ -83,6 +83,8 @@ func rulesC11(c *Ctx, r *Report) {
 	rulesPassThroughErrors(c, r)
 	rulesNoIntToString(c, r)
 	rulesParseErrorContinues(c, r)
+	rulesBedSkip(c, r) // shared with C04: a record's own text is read back as a record — only empty and '#' lines are skipped
+	rulesSamSkip(c, r) // shared with C03
 	rulesNoCsv(c, r, "formats/sam", []string{"ReaderHeader", "Reader"}, "(*SAM).Write")
 	rulesNoCsv(c, r, "formats/bed", []string{"Reader"}, "(*BED).Write")
 	rulesTagTable(c, r)
